@@ -24,7 +24,6 @@ import (
 )
 
 type (
-	Once      = sync.Once
 	Map       = sync.Map
 	Cond      = sync.Cond
 	Locker    = sync.Locker
@@ -32,11 +31,110 @@ type (
 
 func NewCond(l Locker) *Cond { return sync.NewCond(l) }
 
-func OnceFunc(f func()) func() { return sync.OnceFunc(f) }
+// Once mirrors sync.Once on top of the controlled Mutex: a thread that arrives while another is
+// inside Do(f) (f may contain scheduling points) is disabled in the scheduler instead of
+// blocking for real while it holds the baton.  Same algorithm as the real one, hence the same
+// happens-before edges for the race detector.
+type Once struct {
+	done atomic.Uint32
+	m    Mutex
+}
 
-func OnceValue[T any](f func() T) func() T { return sync.OnceValue(f) }
+func (o *Once) Do(f func()) {
+	if o.done.Load() == 0 {
+		o.doSlow(f)
+	}
+}
 
-func OnceValues[T1, T2 any](f func() (T1, T2)) func() (T1, T2) { return sync.OnceValues(f) }
+func (o *Once) doSlow(f func()) {
+	o.m.Lock()
+	defer o.m.Unlock()
+	if o.done.Load() == 0 {
+		defer o.done.Store(1)
+		f()
+	}
+}
+
+// OnceFunc, OnceValue and OnceValues as in package sync (a panic of f is re-raised on every call).
+func OnceFunc(f func()) func() {
+	var (
+		once  Once
+		valid bool
+		p     any
+	)
+	g := func() {
+		defer func() {
+			p = recover()
+			if !valid {
+				panic(p)
+			}
+		}()
+		f()
+		f = nil
+		valid = true
+	}
+	return func() {
+		once.Do(g)
+		if !valid {
+			panic(p)
+		}
+	}
+}
+
+func OnceValue[T any](f func() T) func() T {
+	var (
+		once   Once
+		valid  bool
+		p      any
+		result T
+	)
+	g := func() {
+		defer func() {
+			p = recover()
+			if !valid {
+				panic(p)
+			}
+		}()
+		result = f()
+		f = nil
+		valid = true
+	}
+	return func() T {
+		once.Do(g)
+		if !valid {
+			panic(p)
+		}
+		return result
+	}
+}
+
+func OnceValues[T1, T2 any](f func() (T1, T2)) func() (T1, T2) {
+	var (
+		once  Once
+		valid bool
+		p     any
+		r1    T1
+		r2    T2
+	)
+	g := func() {
+		defer func() {
+			p = recover()
+			if !valid {
+				panic(p)
+			}
+		}()
+		r1, r2 = f()
+		f = nil
+		valid = true
+	}
+	return func() (T1, T2) {
+		once.Do(g)
+		if !valid {
+			panic(p)
+		}
+		return r1, r2
+	}
+}
 
 // Controller decides the answers of the environment.
 type Controller interface {
